@@ -29,3 +29,19 @@ Definition ex_sync_rands : list Q := [1#4; 3#4; 1#4; 3#4; 1#4; 3#4].
 
 (* (time, id) of an entry *)
 Definition key (x : entry) : Q * nat := (e_time x, e_id x).
+
+(* A table with a Monitor (C12): process 0 posts the repeating observe program 1 every 1/2 from 0;
+   process 1 has a per-element event of rate 1 (program 0 removes the element from the locus), posts
+   an event at 3/4 (program 2) and un-posts it again: the only id user code ever holds. *)
+Definition ex_mon : table unit :=
+  {| t_maxtime := 2;
+     t_loci := [(1%nat, [EN 0; EN 1; EN 2])];
+     t_procs := [ {| p_events := []; p_setup := [APostRep 0 (1#2) 1] |};
+                  {| p_events := [ {| ev_elem := true; ev_locus := 0; ev_p := 1; ev_prog := 0 |} ];
+                     p_setup := [APost (3#4) 2; AUnpost 0 false] |} ];
+     t_progs := [static [ALDiscardSelf 0]; static [AObserve]; static []];
+     t_world := tt;
+     t_equil := fun _ _ => false |}.
+Definition ex_mon_rands : list Q := [1#2; 1#2; 1#2; 1#2; 1#2; 1#2; 1#2; 1#2].
+Definition ex_mon_lns : list Q := [2; 1; 1; 1].
+Definition ex_mon_draws : list nat := [0; 0; 0; 0]%nat.
